@@ -160,8 +160,11 @@ BATTERY = r'''
 import json, sys
 from metomi.isodatetime import data as d
 from metomi.isodatetime.parsers import TimePointParser, TimeRecurrenceParser, DurationParser
+# long-lived parser objects, reused across mode switches (as a long-running program would)
+_P = TimePointParser(assumed_time_zone=(0, 0), num_expanded_year_digits=2)
+_R = TimeRecurrenceParser(_P, DurationParser())
 def battery():
-    P = TimePointParser(assumed_time_zone=(0, 0), num_expanded_year_digits=2)
+    P = _P
     out = []
     def t(f):
         try: out.append(str(f()))
@@ -180,8 +183,12 @@ def battery():
         t(lambda: P.parse(s).to_calendar_date() + d.Duration(years=1))
     for s in ("2000-02-30T00Z", "2001-02-29T00Z", "2000-366T00Z", "2001-12-31T00Z", "2004-W53-1T00Z"):
         t(lambda: P.parse(s))
-    R = TimeRecurrenceParser(P, DurationParser())
+    R = _R
     t(lambda: [str(x) for x in R.parse("R5/2000-02-26T00Z/P1D")]); t(lambda: [str(x) for x in R.parse("R4/2000-01-31T00Z/P1M")])
+    t(lambda: str(R.parse("R3/2020-02-28T00Z/P1D").end_point)); t(lambda: str(R.parse("R/2020-02-28T00Z/2020-03-01T00Z").duration))
+    t(lambda: P.parse("2024-02-29T00Z")); t(lambda: P.parse("2024-061T00Z") == P.parse("2024-03-01T00Z"))
+    t(lambda: str(P.parse("2020-W52-1T00Z") + d.Duration(days=7))); t(lambda: str(P.parse("2016-W52-1T00Z") + d.Duration(days=7)))
+    t(lambda: P.parse("2024-03-01T00Z").strftime("%j %F")); t(lambda: hash(P.parse("2024-061T00Z")) == hash(P.parse("2024-03-01T00Z")))
     return out
 '''
 
@@ -358,6 +365,13 @@ def job_discover(ctx):
     if missing:
         r["error"] = "lru_cache'd helpers without a harness (uncovered): %s" % missing
     r["notes"].append("no longer cached: %s" % gone if gone else "all listed helpers are cached")
+    # memoisations anywhere in the package that this machinery does not know: their transparency is not decided
+    new = []
+    for name, m in ctx.mods.items():
+        for c in getattr(m, "__symx_unknown_caches__", []):
+            new.append("%s.%s" % (name, c))
+    if new:
+        r["error"] = "memoised callables that no check models (cache transparency not decided): %s" % sorted(new)
     # caches outside data.py must not read CALENDAR (dumpers' method caches)
     import inspect
     src = inspect.getsource(ctx.dumpers)
